@@ -39,6 +39,7 @@ var c04Args = []struct{ cls, text string }{
 	{"multiline", `"a\nb"`}, {"newline", `"\n"`}, {"lead-newline", `"\nx"`}, {"array-multiline-empty", `array("", "a\nb")`}, {"array-multiline-nested", `array(array("a\nb", ""), "", "\n")`},
 	{"object-multiline", `object("a", "", "b", "x\ny", "c", array("", "p\nq"))`},
 	{"array", "array(1, \"x\", null)"}, {"empty-array", "array()"}, {"nested", "array(array(array(1)), object(\"a\", array()))"}, {"object", "object(\"a\", 1, \"b\", \"x\")"},
+	{"json-huge-exponent", `parse_json("1e30000000")`},
 	{"json", `parse_json("{\"a\":[1,{\"b\":null}],\"__default__\":5}")`}, {"func", "upper"}, {"lambda", "(x) => x"}, {"date1", `datetime("0001-01-01T00:00:00Z")`}, {"date9999", `datetime("9999-12-31T23:59:59Z")`},
 	{"date", `date("2024-02-29")`}, {"time", `time("23:59:59.999999")`}, {"format", `"YYYY-MM-DD tt:mm:ss.fffffffff"`}, {"regex", `"(a+)+$"`}, {"bad-regex", `"[("`}, {"tz", `"America/Santiago"`}, {"ctx", "big"},
 }
